@@ -187,7 +187,11 @@ pub fn timeline(cfg: &HybCfg, ops: &[HOp], trace: &HTrace) -> Timeline {
                         .map(|w| w.version.is_none() || may_exceed_entry_limit(cfg, w.len))
                         .unwrap_or(false);
                     let updated = evs.iter().filter(|w| !w.resurrect && w.lo < step).count() >= 2;
-                    if relax_all || (relax_removed && last_is_remove) || (relax_updated && updated) {
+                    // a get_or_fetch that had not resolved when close() was called inserts its value concurrently with
+                    // (or after) the flush of close: that value is not "what memory held at close" and need not be
+                    // persisted, so the copy that was on disk before may be what the reopened cache serves
+                    let write_concurrent_with_close = evs.iter().any(|w| !w.resurrect && w.lo <= step && w.hi >= step);
+                    if relax_all || (relax_removed && last_is_remove) || (relax_updated && updated) || write_concurrent_with_close {
                         let olds: Vec<(u64, usize)> = evs
                             .iter()
                             .filter(|w| w.lo < step)
